@@ -21,6 +21,7 @@ import importlib.util
 import json
 import math
 import os
+import re
 import struct
 import subprocess
 import sys
@@ -154,6 +155,64 @@ def spec_check_fraction(x, out):
     other = above if om == below else below
     ov = fractions.Fraction(65536) if other == 0x7C00 else _HALF_FINITE[other]
     return None, abs(r - v) > abs(ov - v)
+
+
+# ----------------------------------------------------------------------------------------------------------------
+# which packer does the tree under check have?  (the "translator" of this check: the template text is reduced to a
+# canonical statement string and must be one of the transcribed shapes, otherwise the tie is broken)
+# ----------------------------------------------------------------------------------------------------------------
+SHAPE_PACK_TIES_AWAY = (
+    "PACKconstTvalue{Tconstuint32_tround_mask=~0x0FFFU;Float32Bitsf32inf;Float32Bitsf16inf;Float32Bitsmagic;Float32Bitsin;"
+    "f32inf.bits=255U<<23U;f16inf.bits=31U<<23U;magic.bits=15U<<23U;in.real=value;constuint32_tsign=in.bits&1U<<31U;in.bits^=sign;"
+    "uint16_tout=0;ifin.bits>=f32inf.bits{ifin.bits&0x7FFFFFUL!=0{out=0x7E00U;}else{out=in.bits>f32inf.bits?0x7FFFU:0x7C00U;}}"
+    "else{in.bits&=round_mask;in.real*=magic.real;in.bits-=round_mask;ifin.bits>f16inf.bits{in.bits=f16inf.bits;}out=in.bits>>13U;}"
+    "out|=sign>>16U;returnout;")
+SHAPE_PACK_RNE = (
+    "PACKconstTvalue{TFloat32Bitsf32inf;Float32Bitsf16max;Float32Bitsdenorm_magic;Float32Bitsin;f32inf.bits=255U<<23U;"
+    "f16max.bits=127U+16U<<23U;denorm_magic.bits=127U-15U+23U-10U+1U<<23U;in.real=value;constuint32_tsign=in.bits&1U<<31U;"
+    "in.bits^=sign;uint16_tout=0;ifin.bits>=f16max.bits{out=in.bits>f32inf.bits?0x7E00U:0x7C00U;}"
+    "elseifin.bits<113U<<23U{in.real+=denorm_magic.real;out=in.bits-denorm_magic.bits;}"
+    "else{constuint32_tmant_odd=in.bits>>13U&1U;in.bits-=112U<<23U;in.bits+=0x0FFFU+mant_odd;out=in.bits>>13U;}"
+    "out|=sign>>16U;returnout;")
+SHAPE_UNPACK = (
+    "UNPACKconstuint16_tvalue{TFloat32Bitsmagic;Float32Bitsinf_nan;Float32Bitsout;magic.bits=0xEFU<<23U;inf_nan.bits=0x8FU<<23U;"
+    "out.bits=value&0x7FFFU<<13U;out.real*=magic.real;ifout.real>=inf_nan.real{out.bits|=0xFFU<<23U;}out.bits|=value&0x8000U<<16U;"
+    "returnout.real;")
+# model operation of the Lean driver per recognised pack shape
+PACK_MODEL = {"ties-away": "pack", "rne": "rnec"}
+
+
+def _canon(text, fname, tag):
+    i = text.index(fname + "(")
+    j = text.index("\n}\n", i)
+    b = text[i:j]
+    b = re.sub(r"//[^\n]*", "", b)
+    b = re.sub(r"\{\{[^}]*\}\}", "T", b)
+    b = re.sub(r"static_cast<\s*(uint16_t|uint32_t)\s*>", "", b)
+    b = re.sub(r"\(\s*(uint16_t|uint32_t)\s*\)", "", b)
+    b = re.sub(r"[\s()]+", "", b)
+    return b.replace(fname, tag)
+
+
+def recognise_shapes(ctx):
+    """Returns 'ties-away' | 'rne' | None (unrecognised => broken obligation recorded)."""
+    found = {}
+    for lang, path, pk, un in (("c", "src/nunavut/lang/c/support/serialization.j2", "nunavutFloat16Pack", "nunavutFloat16Unpack"),
+                               ("cpp", "src/nunavut/lang/cpp/support/serialization.j2", "float16Pack", "float16Unpack")):
+        try:
+            text = (common.REPO / path).read_text()
+            cp, cu = _canon(text, pk, "PACK"), _canon(text, un, "UNPACK")
+        except (OSError, ValueError) as e:
+            ctx.broken.append({"kind": "float16-template-shape", "lang": lang, "error": repr(e)})
+            found[lang] = None
+            continue
+        found[lang] = "ties-away" if cp == SHAPE_PACK_TIES_AWAY else "rne" if cp == SHAPE_PACK_RNE else None
+        if found[lang] is None:
+            ctx.broken.append({"kind": "float16-template-shape", "lang": lang, "what": "the pack function is neither of the transcribed shapes", "canonical": cp})
+        if cu != SHAPE_UNPACK:
+            ctx.broken.append({"kind": "float16-template-shape", "lang": lang, "what": "the unpack function is not the transcribed shape", "canonical": cu})
+    ctx.extra["f16_template_shape"] = found
+    return found
 
 
 # ----------------------------------------------------------------------------------------------------------------
@@ -347,17 +406,30 @@ def _slices(blocks, n=NSLICES):
     return [blocks[i:i + k] for i in range(0, len(blocks), k)]
 
 
-def _lean_block_sums(drv, blocks, fn="pack", timeout=3000):
-    sl = _slices(blocks)
-    cmds = [[str(drv.exe)] for _ in sl]
-    inputs = ["".join(f"sum {fn} {b * BLOCK:x} {BLOCK:x}\n" for b in s).encode() for s in sl]
-    outs = _parallel(cmds, timeout, inputs)
+def _bitrev12(b):
+    return int(format(b & 0xFFF, "012b")[::-1], 2)
+
+
+def _lean_block_sums(drv, blocks, fn="pack", budget_s=None, timeout=3000):
+    """Checksums of the Lean model per block, NSLICES processes at a time.  Blocks are visited in bit-reversed order so
+    that a sweep cut short by `budget_s` still covers every exponent; returns {block: checksum} for the blocks done."""
+    order = sorted(blocks, key=_bitrev12)
     res = {}
-    for s, o in zip(sl, outs):
-        lines = o.split()
-        if len(lines) != len(s):
-            raise RuntimeError("lean driver: wrong number of checksum lines")
-        res.update(zip(s, lines))
+    t0 = time.time()
+    per_round = NSLICES * 8
+    for i in range(0, len(order), per_round):
+        if budget_s is not None and i > 0 and time.time() - t0 > budget_s:
+            break
+        part = order[i:i + per_round]
+        sl = _slices(part)
+        cmds = [[str(drv.exe)] for _ in sl]
+        inputs = ["".join(f"sum {fn} {b * BLOCK:x} {BLOCK:x}\n" for b in s_).encode() for s_ in sl]
+        outs = _parallel(cmds, timeout, inputs)
+        for s_, o in zip(sl, outs):
+            lines = o.split()
+            if len(lines) != len(s_):
+                raise RuntimeError("lean driver: wrong number of checksum lines")
+            res.update(zip(s_, lines))
     return res
 
 
@@ -382,11 +454,11 @@ def _c_block_sums(exe, blocks, timeout=3000):
     return res
 
 
-def _bisect(drv, exe, block):
+def _bisect(drv, exe, block, fn="pack"):
     start, count = block * BLOCK, BLOCK
     while count > 1:
         half = count // 2
-        m = drv.ask([f"sum pack {start:x} {half:x}"])[0]
+        m = drv.ask([f"sum {fn} {start:x} {half:x}"])[0]
         c = _run([str(exe), "sum", f"{start:x}", f"{half:x}", "1"], 120).stdout.decode().strip()
         if m != c:
             count = half
@@ -455,6 +527,16 @@ def run_float(ctx, drivers=None):
         exes[v[0]] = build(ctx, *v)
     ref_exe = exes["c-gcc-O2"]
     ctx.extra["f16_variants"] = [v[0] for v in variants] + ["python"]
+    shapes = recognise_shapes(ctx)
+    for lang in ("c", "cpp"):
+        if shapes.get(lang) is None:
+            # unrecognised template (already recorded as a broken obligation): still run everything, against the model that
+            # agrees on the classic tie input, so that the failing-input search decides whether the property is violated
+            probe = _pack_list(exes["c-gcc-O2" if lang == "c" else "cpp-g++14-O2"], array.array("I", [0x3F801000]))[0][0]
+            shapes[lang] = "ties-away" if probe == 0x3C01 else "rne"
+    fn_of = {name: PACK_MODEL[shapes["cpp" if name.startswith("cpp") else "c"]] for name in exes}
+    ctx.extra["f16_model_per_variant"] = fn_of
+    ctx.extra["f16_theorem_set"] = {"pack": "C14_pack_* (packer as shipped, ties away from zero)", "rnec": "C14_packRneC_* (repaired packer, ties to even)"}
 
     # ---- unpack: all 2^16 patterns, every variant ----------------------------------------------------------------
     model_unpack = None
@@ -497,9 +579,10 @@ def run_float(ctx, drivers=None):
     xs = stratified_inputs(rng, 150000 if quick else 1500000, quick)
     n = len(xs)
     ctx.extra["f16_pack_stratified_inputs"] = n
-    model_pack = model_rne = None
+    model_pack = {}
     if drv is not None:
-        model_pack = [int(a, 16) for a in drv.ask([f"pack {x:x}" for x in xs], timeout=1200)]
+        for fn in sorted(set(fn_of.values())):
+            model_pack[fn] = [int(a, 16) for a in drv.ask([f"{fn} {x:x}" for x in xs], timeout=1200)]
     frac_idx = [rng.randrange(n) for _ in range(3000 if quick else 20000)] + list(range(0, min(n, 256 * len(MANT) * 2), 37))
     for name, exe in exes.items():
         direct, wrapped = _pack_list(exe, xs)
@@ -508,12 +591,13 @@ def run_float(ctx, drivers=None):
                 _fail(ctx, "f16-set-wrapper", name, "SetF16 does not write Float16Pack(value) into exactly the addressed 16 bits",
                       {"target": name, "x": hex(xs[i]), "direct": hex(direct[i]), "wrapped": hex(wrapped[i])})
                 break
-        if model_pack is not None:
+        if model_pack:
             ctx.traces += n
             nd = 0
+            mp = model_pack[fn_of[name]]
             for i in range(n):
-                if direct[i] != model_pack[i]:
-                    ctx.disagree("pack:" + name, hex(xs[i]), hex(model_pack[i]), hex(direct[i]))
+                if direct[i] != mp[i]:
+                    ctx.disagree("pack:" + name, hex(xs[i]), hex(mp[i]), hex(direct[i]))
                     nd += 1
                     if nd > 20:
                         break
@@ -547,6 +631,20 @@ def run_float(ctx, drivers=None):
             ctx.count("f32mul_pairs:" + name, len(md))
             ctx.count("f32mul_subnormal_results:" + name, sub)
             ctx.count("f32mul_overflow_results:" + name, sum(1 for v in hw if v == 0x7F800000))
+            # the modelled addition (used by the repaired packer only; tied in either case)
+            p = _run([str(exes[name]), "add-list"], 600, input=ps.tobytes())
+            hw = array.array("I")
+            hw.frombytes(p.stdout)
+            md = drv.ask([f"add {ps[2 * i]:x} {ps[2 * i + 1]:x}" for i in range(len(ps) // 2)], timeout=1200)
+            ctx.traces += len(md)
+            nd = 0
+            for i, m in enumerate(md):
+                if int(m, 16) != hw[i]:
+                    ctx.disagree("f32add:" + name, [hex(ps[2 * i]), hex(ps[2 * i + 1])], m, hex(hw[i]))
+                    nd += 1
+                    if nd > 10:
+                        break
+            ctx.count("f32add_pairs:" + name, len(md))
 
     # ---- pack: block checksums (sample in quick, ALL 2^32 inputs in thorough) ------------------------------------
     if quick:
@@ -565,19 +663,28 @@ def run_float(ctx, drivers=None):
             if s[b] != ref[b]:
                 ctx.disagree("pack-sweep:variants", {"block": hex(b), "variant": name}, ref[b], s[b])
                 break
+    covered = 0
     if drv is not None:
         tsw = time.time()
-        lean = _lean_block_sums(drv, blocks)
+        budget = None if quick else float(os.environ.get("VERIF_C14F_LEAN_BUDGET_S", "600"))
+        lean = {fn: _lean_block_sums(drv, blocks, fn, budget_s=budget) for fn in sorted(set(fn_of.values()))}
         ctx.extra["f16_lean_sweep_s"] = round(time.time() - tsw, 1)
+        covered = min(len(v) for v in lean.values())
         for name, s in sums.items():
-            bad = [b for b in blocks if s[b] != lean[b]]
-            ctx.traces += len(blocks) * BLOCK
+            lf = lean[fn_of[name]]
+            bad = [b for b in lf if s[b] != lf[b]]
+            ctx.traces += len(lf) * BLOCK
             for b in bad[:3]:
-                x = _bisect(drv, exes[name], b)
-                m = drv.ask([f"pack {x:x}"])[0]
+                x = _bisect(drv, exes[name], b, fn_of[name])
+                m = drv.ask([f"{fn_of[name]} {x:x}"])[0]
                 c = _pack_list(exes[name], array.array("I", [x]))[0][0]
                 ctx.disagree("pack-sweep:" + name, hex(x), m, hex(c))
-    ctx.extra["f16_pack_sweep"] = {"blocks_of_2^20": len(blocks), "inputs": len(blocks) * BLOCK, "exhaustive_2^32": len(blocks) == 4096,
+    ctx.extra["f16_pack_sweep"] = {"blocks_of_2^20": len(blocks), "inputs": len(blocks) * BLOCK,
+                                   "compiled_variants_compared_on_all_2^32": len(blocks) == 4096,
+                                   "lean_model_blocks": covered, "lean_model_inputs": covered * BLOCK,
+                                   "lean_model_on_all_2^32": covered == 4096,
+                                   "note": "blocks are visited in bit-reversed order; a Lean sweep cut short by the time budget still covers every exponent; "
+                                           "the compiled builds are always compared with each other and with the double-precision specification on every block",
                                    "variants": list(sums), "lean_model_included": drv is not None}
     ctx.cases += len(blocks) * BLOCK * len(sums)
     for b in blocks:
@@ -596,7 +703,9 @@ def run_float(ctx, drivers=None):
     ctx.extra["f14_record"] = {
         "inputs_swept": stat["inputs"], "ties": stat["ties"], "c_differs_from_RNE": stat["diff_rne"],
         "differences_that_are_not_ties": stat["diff_not_tie"], "ties_where_RNE_rounds_down_but_C_agrees": stat["tie_rnedown_same"],
-        "reading": "C/C++ differ from round-to-nearest-even exactly on the ties whose even neighbour is the lower one (C rounds every tie away from zero)",
+        "template_shape": shapes,
+        "reading": ("ties-away shape: C/C++ differ from round-to-nearest-even exactly on the ties whose even neighbour is the lower one "
+                    "(every tie rounds away from zero); rne shape: no input differs"),
     }
 
     # ---- F32 / F64 wrappers (bit-pattern identity, little-endian image, unaligned round trip) ------------------------
@@ -625,7 +734,8 @@ def run_float(ctx, drivers=None):
     rule = ("float16: unpack on all 2^16 patterns per build; pack on a stratified set (every exponent x mantissa boundaries, every "
             "half-midpoint and every half +-1 pattern, both signs, specials, seeded random) per build and per-2^20-block checksums "
             + ("of a block sample" if quick else "of ALL 4096 blocks (= all 2^32 inputs)") +
-            " against the Lean model; non-trivial = finite input with |x| >= 2^-27 (rounding actually happens); distinct by input pattern / block")
+            " against the Lean model (Lean side of the full sweep is cut at VERIF_C14F_LEAN_BUDGET_S, default 600 s; see f16_pack_sweep)"
+            "; non-trivial = finite input with |x| >= 2^-27 (rounding actually happens); distinct by input pattern / block")
     ctx.rule = (ctx.rule + " || " if ctx.rule else "") + rule
 
 
